@@ -344,6 +344,17 @@ func (ia *IA) structural(v ssa.Value, s istate, depth int) Itv {
 					r = r.meet(Itv{a.Lo - a.Lo/c, hi})
 				}
 			}
+			// a dominating comparison of the two operands bounds their difference; applied
+			// only when the subtraction cannot wrap in its type
+			if r.Within(tr) {
+				tx, ty := ia.termOf(widenedFrom(x.X)), ia.termOf(widenedFrom(x.Y))
+				if d, ok := s[diffOf{tx, ty}]; ok {
+					r = r.meet(d)
+				}
+				if d, ok := s[diffOf{ty, tx}]; ok {
+					r = r.meet(Itv{satNeg(d.Hi), satNeg(d.Lo)})
+				}
+			}
 			return clamp(r)
 		case token.MUL:
 			c := []int64{satMul(a.Lo, b.Lo), satMul(a.Lo, b.Hi), satMul(a.Hi, b.Lo), satMul(a.Hi, b.Hi)}
@@ -535,8 +546,41 @@ func (ia *IA) refine(s istate, cond ssa.Value, truth bool) istate {
 	out := s.clone()
 	ia.assign(out, bin.X, na, 0)
 	ia.assign(out, bin.Y, nb, 0)
+	// relational fact for two non-constant terms: the interval of X - Y (used when a later
+	// instruction computes that difference)
+	_, cx := ia.Canon(widenedFrom(bin.X)).(*ssa.Const)
+	_, cy := ia.Canon(widenedFrom(bin.Y)).(*ssa.Const)
+	if !cx && !cy {
+		tx, ty := ia.termOf(widenedFrom(bin.X)), ia.termOf(widenedFrom(bin.Y))
+		var d Itv
+		ok := true
+		switch op {
+		case token.LSS:
+			d = Itv{ninf, -1}
+		case token.LEQ:
+			d = Itv{ninf, 0}
+		case token.GTR:
+			d = Itv{1, pinf}
+		case token.GEQ:
+			d = Itv{0, pinf}
+		case token.EQL:
+			d = Itv{0, 0}
+		default:
+			ok = false
+		}
+		if ok {
+			k := diffOf{tx, ty}
+			if old, has := out[k]; has {
+				d = d.meet(old)
+			}
+			out[k] = d
+		}
+	}
 	return out
 }
+
+// diffOf is the relational term "A - B" (mathematical difference of two integer terms).
+type diffOf struct{ A, B term }
 
 // assign stores a refinement for v and pushes it through value-preserving wrappers:
 // integer conversions that cannot truncate, and +/- constant.
@@ -730,6 +774,11 @@ func (ia *IA) blockIn(b *ssa.BasicBlock) istate {
 		if v, ok := in.(ssa.Value); ok {
 			delete(s, term(v))
 			delete(s, term(lenOf{v}))
+			for k := range s {
+				if d, ok := k.(diffOf); ok && (d.A == term(v) || d.B == term(v) || d.A == term(lenOf{v}) || d.B == term(lenOf{v})) {
+					delete(s, k)
+				}
+			}
 		}
 	}
 	for _, in := range b.Instrs {
